@@ -36,14 +36,16 @@ func ruleOptGate(c *Ctx) {
 			c.Anchor(R, pk+".EncodeWithColor/includeChecksum", "expected (content string, includeChecksum bool, fullASCIIMode bool, ...)")
 			continue
 		}
-		calls := callsTo(fn, gc)
+		calls := c.P.deepCallsTo(fn, gc)
 		if len(calls) == 0 {
 			c.Check(R, pk+".EncodeWithColor/getChecksum", fn.Pos(), false, "check characters are computed by getChecksum when requested", "no call to getChecksum")
 		}
-		for i, call := range calls {
+		for i, site := range calls {
+			call := site.Ins.(*ssa.Call)
 			n := NewNormer(c.P)
+			n.Root = fn
 			n.Bind[flag] = "includeChecksum"
-			rc := n.ReachCond(fn, nil, call.Block())
+			rc := n.ReachCondDeep(fn, nil, site)
 			imp, _, w := CondRelation(rc, &Cond{Kind: CBool, Name: "includeChecksum"})
 			found := "reach condition " + rc.String()
 			if !imp {
